@@ -94,16 +94,18 @@ theorem processEvent_log (cfg : Cfg) (st : PState) (ev : Event) :
   split <;> try simp
   split <;> simp
 
-theorem processEvents_log (cfg : Cfg) (st : PState) (evs : List Event) :
-    (processEvents cfg st evs).1.log = st.log := by
+theorem processEvents_log (cfg : Cfg) (dl : Nat) (st : PState) (evs : List Event) :
+    (processEvents cfg dl st evs).1.log = st.log := by
   induction evs generalizing st with
   | nil => simp [processEvents]
   | cons ev evs ih =>
     have h := processEvent_log cfg { st with clock := ev.fin } ev
     simp only [processEvents]
     split
-    · rename_i st' r heq; rw [heq] at h; exact h
-    · rename_i st' heq; rw [heq] at h; rw [ih st', h]
+    · rfl
+    · split
+      · rename_i st' r heq; rw [heq] at h; exact h
+      · rename_i st' heq; rw [heq] at h; rw [ih st', h]
 
 /-- what one reply does to the queue and to the protocol policy -/
 theorem processEvent_queue (cfg : Cfg) (st : PState) (ev : Event) :
@@ -120,8 +122,8 @@ theorem processEvent_queue (cfg : Cfg) (st : PState) (ev : Event) :
 /-- a batch that does not end the lookup: the re-queued servers sit at the front of the queue, at most
 one per reply, every server that answered truncated (or with a case mismatch) is among them and UDP is
 then disabled -/
-theorem processEvents_queue (cfg : Cfg) (evs : List Event) :
-    ∀ (st st' : PState), processEvents cfg st evs = (st', none) →
+theorem processEvents_queue (cfg : Cfg) (dl : Nat) (evs : List Event) :
+    ∀ (st st' : PState), processEvents cfg dl st evs = (st', none) →
       ∃ pre, st'.queue = pre ++ st.queue ∧ pre.length ≤ evs.length ∧
         (st.disableUdp = true → st'.disableUdp = true) ∧
         (∀ ev ∈ evs, (ev.reply = some .tc ∨ ev.reply = some .cm) →
@@ -136,6 +138,8 @@ theorem processEvents_queue (cfg : Cfg) (evs : List Event) :
     intro st st' h
     simp only [processEvents] at h
     have hq := processEvent_queue cfg { st with clock := ev.fin } ev
+    split at h
+    · simp at h
     split at h
     · simp at h
     · rename_i st1 heq
@@ -170,18 +174,20 @@ def eventsOf (cfg : Cfg) (st : PState) : List Event :=
   (sendBatch cfg st.disableUdp st.clock (batchOf cfg st) st.conns).1
 
 /-- state in which the replies of the batch are handled -/
-def afterSend (cfg : Cfg) (st : PState) : PState :=
+def afterSend (cfg : Cfg) (dl : Nat) (st : PState) : PState :=
   { st with
     queue := (takeBatch cfg st.disableUdp (max cfg.ncr 1) st.queue []).2
     conns := (sendBatch cfg st.disableUdp st.clock (batchOf cfg st) st.conns).2.1
-    log := st.log ++ (sendBatch cfg st.disableUdp st.clock (batchOf cfg st) st.conns).2.2 }
+    log := st.log ++ ((sendBatch cfg st.disableUdp st.clock (batchOf cfg st) st.conns).2.2).filter
+      (fun e => e.2.start ≤ dl) }
 
 theorem round_batch (cfg : Cfg) (dl : Nat) (st : PState) (h : st.clock < dl)
     (hne : batchOf cfg st ≠ []) :
     round cfg dl st =
-      match processEvents cfg (afterSend cfg st) (sortEvents (eventsOf cfg st)) with
+      match processEvents cfg dl (afterSend cfg dl st) (sortEvents (eventsOf cfg st)) with
       | (st2, some r) =>
-        .done r (cancelInFlight st2 (unprocessed cfg (afterSend cfg st) (sortEvents (eventsOf cfg st))))
+        .done r (cancelInFlight st2
+          (unprocessed cfg dl (afterSend cfg dl st) (sortEvents (eventsOf cfg st))))
       | (st2, none) => .next st2 := by
   have h1 : ¬ st.clock ≥ dl := by omega
   have h2 : (takeBatch cfg st.disableUdp (max cfg.ncr 1) st.queue []).1.isEmpty = false := by
@@ -194,9 +200,10 @@ theorem round_batch (cfg : Cfg) (dl : Nat) (st : PState) (h : st.clock < dl)
 theorem round_batch_log (cfg : Cfg) (dl : Nat) (st : PState) (h : st.clock < dl)
     (hne : batchOf cfg st ≠ []) :
     (round cfg dl st).state.log =
-      st.log ++ (sendBatch cfg st.disableUdp st.clock (batchOf cfg st) st.conns).2.2 := by
+      st.log ++ ((sendBatch cfg st.disableUdp st.clock (batchOf cfg st) st.conns).2.2).filter
+        (fun e => e.2.start ≤ dl) := by
   rw [round_batch cfg dl st h hne]
-  have := processEvents_log cfg (afterSend cfg st) (sortEvents (eventsOf cfg st))
+  have := processEvents_log cfg dl (afterSend cfg dl st) (sortEvents (eventsOf cfg st))
   split <;> (rename_i heq; rw [heq] at this; simpa [RoundOut.state, afterSend, cancelInFlight] using this)
 
 /-- **truncated ⇒ TCP** (and case-randomisation mismatch ⇒ TCP).  If in some round the request to
@@ -223,7 +230,7 @@ theorem truncated_then_tcp (cfg : Cfg) (dl : Nat) (st st' : PState) (s : Nat)
   · rename_i st2 heq
     simp only [RoundOut.next.injEq] at hround
     subst hround
-    obtain ⟨pre, hq, hlen, _, htcs⟩ := processEvents_queue cfg _ _ _ heq
+    obtain ⟨pre, hq, hlen, _, htcs⟩ := processEvents_queue cfg dl _ _ _ heq
     have hs := htcs ev ((mem_sortEvents ev _).mpr hmem) htc
     rw [hsrv] at hs
     have hlen' : pre.length ≤ max cfg.ncr 1 := by
@@ -240,7 +247,9 @@ theorem truncated_then_tcp (cfg : Cfg) (dl : Nat) (st st' : PState) (s : Nat)
       exact takeBatch_prefix cfg true _ _ pre [] (by simpa using hlen') s hs.1 hallow
     have hne2 : batchOf cfg st2 ≠ [] := fun hnil => by rw [hnil] at hin; simp at hin
     rw [round_batch_log cfg dl st2 hdl hne2, hs.2]
-    exact List.mem_append_right _ (sendBatch_logs_tcp cfg st2.clock _ st2.conns s hin htcp)
+    refine List.mem_append_right _ (List.mem_filter.mpr ⟨sendBatch_logs_tcp cfg st2.clock _ st2.conns s hin htcp, ?_⟩)
+    simp only [decide_eq_true_eq]
+    omega
 
 /-- non-vacuity: server 0 (UDP+TCP) answers truncated after 5 ms, server 1 has not been asked yet;
 the next exchange is server 0 over TCP at 5 ms -/
